@@ -66,6 +66,16 @@ CHECKS = {
             "advisory receipts that rewrite nothing (spec_violation, duplicate_key, deep_nesting, constructor_misuse, "
             "pattern auto-quote) are outside the bijection; compilations (capped at 5) only checked for inclusion",
             "DESIGN.md §3 C07"),
+    "C08": ("exploration",
+            "exhaustive chains x values against a hand-written reference evaluator + algebraic chain laws; generated schemas x instances",
+            "Every constraint chain of <=2 members over a 60-member pool is evaluated on a ~150-value boundary pool "
+            "(exhaustive) and sampled chains of 3-4 members with all permutations: single-member verdicts must match a "
+            "reference evaluator written from the documentation (where it fixes the answer), and chains must be the "
+            "conjunction of their members unless a conflict is declared, whatever the order. Generated schema files "
+            "(REJECT/WARN/IGNORE) x instances check the document-level rules through Validator and octave_validate.",
+            "the reference evaluator's reading of the documentation; cases the documentation leaves open are counted as "
+            "unasserted and only checked by implementation-relative laws",
+            "DESIGN.md §3 C08"),
 }
 
 NOT_YET = {
